@@ -20,16 +20,27 @@ def absorbing(n, k):
     return IdealMaterial(n=n, k=k)
 
 
-@harness('C16', 'H1_clip', funcs=FUNCS, cases=lambda tier: [dict(obsc=False), dict(obsc=True)],
-         bounds='one ray at an arbitrary point, arbitrary r_max (and r_min with central obscuration), arbitrary intensity in [0,1]',
-         doc='RadialAperture.clip: outside r_min <= r <= r_max the intensity becomes 0, inside it is unchanged')
-def h1_clip(ctx, obsc):
+@harness('C16', 'H1_clip', funcs=FUNCS, cases=lambda tier: [dict(obsc=False), dict(obsc=True), dict(obsc=True, history='scale'), dict(obsc=True, history='assign'), dict(obsc=True, history='roundtrip')],
+         bounds='one ray at an arbitrary point, arbitrary r_max (and r_min with central obscuration), arbitrary intensity in [0,1]; history: the aperture '
+                'is rescaled by a symbolic factor / its radii are re-assigned / it goes through to_dict-from_dict before it clips',
+         doc='RadialAperture.clip: outside r_min <= r <= r_max (the CURRENT radii of the aperture) the intensity becomes 0, inside it is unchanged')
+def h1_clip(ctx, obsc, history=None):
     from optiland.physical_apertures import RadialAperture
     x, y = ctx.real('x'), ctx.real('y')
     i0 = ctx.real('i0', lo=0.0, hi=1.0)
     rmax = ctx.real('rmax', lo=0.0)
     rmin = ctx.real('rmin', lo=0.0) if obsc else 0.0
     ap = RadialAperture(r_max=rmax, r_min=rmin)
+    if history == 'scale':
+        f = ctx.real('f', lo=0.01, hi=100.0)
+        ap.scale(f)
+        rmax, rmin = rmax * f, rmin * f
+    elif history == 'assign':
+        rmax, rmin = ctx.real('rmax2', lo=0.0), ctx.real('rmin2', lo=0.0)
+        ap.r_max, ap.r_min = rmax, rmin
+    elif history == 'roundtrip':
+        ap = RadialAperture.from_dict(ap.to_dict())
+    ctx.oblige('radii_read_back', ctx.And(ctx.eq(ap.r_max, rmax), ctx.eq(ap.r_min, rmin)))
     rays = mkrays(ctx, x, y, 0.0, 0.0, 0.0, 1.0, i=i0)
     ap.clip(rays)
     i1 = ctx.val(rays.i)
